@@ -24,6 +24,7 @@ from ..adlift import DT, Deriv
 from ..lift import Interp, LiftRaise, Obj, Unsupported
 from ..memokey import check_memo_keys
 from ..model import AnalysisError, docstring_stripped_body, norm
+from ..passlift import node_operands
 from ..report import Report
 from ..uflmodel import MI, new_index, node, terminal
 from ..uflsem import T, as_T, equal_T
@@ -155,9 +156,30 @@ class Harness:
             raise AnalysisError(f"no handler for {tname}")
         return h
 
+    def invoke(self, h, o, processed):
+        """Call handler h on node o the way DAGTraverser.__call__ would, given the processed operands:
+        post-order handlers receive them as arguments, pre-order handlers obtain them through self(operand)."""
+        processed = list(processed)
+        ops = node_operands(o)
+        pairs = []
+        if len(ops) == len(processed):
+            pairs = list(zip(ops, processed))
+        elif h.kind == "postorder_only_children" and len(processed) == len(h.children):
+            pairs = [(ops[i], r) for i, r in zip(h.children, processed) if i < len(ops)]
+        for op, r in pairs:
+            if r is not None and not isinstance(op, MI):
+                self.dmap.setdefault(id(op), r)
+        if h.kind == "postorder":
+            args = [o] + processed
+        elif h.kind == "postorder_only_children":
+            args = [o] + (processed if len(processed) == len(h.children) else [processed[i] for i in h.children])
+        else:
+            args = [o]
+        return self.ip.call_function(h.func, args, {}, self_obj=self.selfobj)
+
     def apply(self, tname, o, processed):
         h = self.handler(tname)
-        return h, self.ip.call_function(h.func, [o] + list(processed), {}, self_obj=self.selfobj)
+        return h, self.invoke(h, o, processed)
 
 
 def cmp(rep, rule, h, what, got, want, ctx, real_only=False):
